@@ -495,8 +495,16 @@ class Options:
 
         valid_error_code_names = set(error_codes.keys())
 
+        # The per-module sections of the config file are checked here as well.
+        per_module_code_names: set[str] = set()
+        for changes in self.per_module_options.values():
+            for key in ("disable_error_code", "enable_error_code"):
+                names = changes.get(key)
+                if isinstance(names, list):
+                    per_module_code_names.update(names)
+
         invalid_code_names_here = (
-            enabled_code_names | disabled_code_names
+            enabled_code_names | disabled_code_names | per_module_code_names
         ) - valid_error_code_names
         if invalid_code_names_here:
             error_callback(f"Invalid error code(s): {', '.join(sorted(invalid_code_names_here))}")
@@ -548,14 +556,17 @@ class Options:
         # Similar to global codes enabling overrides disabling, so we start from latter.
         new_options.disabled_error_codes = self.disabled_error_codes.copy()
         new_options.enabled_error_codes = self.enabled_error_codes.copy()
+        # Invalid names are reported where the configuration is read; ignore them here.
         for code_str in new_options.disable_error_code:
-            code = error_codes[code_str]
-            new_options.disabled_error_codes.add(code)
-            new_options.enabled_error_codes.discard(code)
+            if code_str in error_codes:
+                code = error_codes[code_str]
+                new_options.disabled_error_codes.add(code)
+                new_options.enabled_error_codes.discard(code)
         for code_str in new_options.enable_error_code:
-            code = error_codes[code_str]
-            new_options.enabled_error_codes.add(code)
-            new_options.disabled_error_codes.discard(code)
+            if code_str in error_codes:
+                code = error_codes[code_str]
+                new_options.enabled_error_codes.add(code)
+                new_options.disabled_error_codes.discard(code)
         return new_options
 
     def compare_stable(self, other_snapshot: dict[str, object]) -> bool:
